@@ -457,6 +457,34 @@ def replay_failure(pid, u, ur, fs):
                     lines.append(f"  REPRODUCED on the real binary: {verdict}")
                     reproduced = True
                     break
+            if not reproduced:
+                # fall back on the batteries of all other units: every script states documented behaviour and is
+                # judged correct on the unchanged tree (lib/vreplaytest.py), so a contradiction is a genuine failing input
+                import glob
+                for fpath in sorted(glob.glob(os.path.join(VERIF, "verus", "*.py"))):
+                    oname = os.path.basename(fpath)[:-3]
+                    if oname == u.module or reproduced:
+                        continue
+                    try:
+                        omod = importlib.import_module(oname)
+                    except Exception:
+                        continue
+                    ogen = getattr(omod, "replays", None)
+                    if not ogen:
+                        continue
+                    for title, script, judge in ogen([]):
+                        rc, so, se = run_script(binary, script)
+                        verdict = judge(rc, so, se)
+                        if verdict:
+                            lines.append(f"replay candidate `{title}` (from the replay battery of unit {oname}; run on the real binary built from /repo's working tree):")
+                            for l in script.splitlines():
+                                lines.append("    | " + l)
+                            lines.append(f"  exit status: {rc}")
+                            lines.append(f"  stdout: {so!r}")
+                            lines.append(f"  stderr: {se[:600]!r}")
+                            lines.append(f"  REPRODUCED on the real binary: {verdict}")
+                            reproduced = True
+                            break
         except Undecided as e:
             lines.append(f"replay generator could not run: {e}")
     if not reproduced:
